@@ -247,7 +247,7 @@ Definition in_dist (k : kind) (x : oval) : bool :=
   | KInt v NNone, VInt y | KUint v NNone, VUint y => y =? v
   | KInt _ (NRange mn mx _ _), VInt y | KUint _ (NRange mn mx _ _), VUint y => (mn <=? y) && (y <=? mx)
   | KInt _ (NList opts _), VInt y | KUint _ (NList opts _), VUint y => existsb (Z.eqb y) opts
-  | KDouble v DNone, VDouble y => feqb y v
+  | KDouble v DNone, VDouble y => feqb y v || PrimFloat.eqb y v   (* up to the sign of zero: proto.Clone drops it *)
   | KDouble v (DRange mn mx dmn dmx), VDouble y =>
       if dbl_sane v mn mx dmn dmx then fle mn y && fle y mx else true
   | KDouble _ (DList opts _), VDouble y => existsb (feqb y) opts
